@@ -46,9 +46,9 @@ def setup_worker():
 def plan(tier):
     if tier == "quick":
         return [("real", {"peer": "real"}, 2600, 50), ("adversary", {"peer": "scripted"}, 2200, 50),
-                ("real-lines", {"peer": "real", "lines": 1}, 500, 25)]
+                ("real-lines", {"peer": "real", "lines": 1}, 500, 25), ("two-clients", {"peer": "real", "clients": 2}, 500, 25)]
     return [("real", {"peer": "real"}, 70000, 100), ("adversary", {"peer": "scripted"}, 70000, 100),
-            ("real-lines", {"peer": "real", "lines": 1}, 30000, 50)]
+            ("real-lines", {"peer": "real", "lines": 1}, 30000, 50), ("two-clients", {"peer": "real", "clients": 2}, 30000, 50)]
 
 
 def _from_harness(exc):
@@ -124,6 +124,22 @@ def scenario(ch, cfg):
     nc = state["nc"]
     if not isinstance(nc, ipc.NetworkClient):
         raise HarnessError(f".cli returned {nc!r}")
+    # optional second client process on its own connection: faults on connection 0 must not leak into it
+    nc2 = None
+    if cfg.get("clients") == 2:
+        from sim.klnode import Node
+        client2 = Node(w, net, "D")
+
+        def connect2():
+            state["nc2"] = client2.klong(f".cli({PORT})")
+        cb = w.spawn("connect2", connect2)
+        w.run(until=lambda: cb.done, max_steps=20000)
+        if not cb.done or cb.exc is not None or not isinstance(state.get("nc2"), ipc.NetworkClient):
+            viol("C14:second-client-cannot-connect", f"second .cli(): done={cb.done} exc={cb.exc!r}")
+            return _finish(env, violations, records, {}, False)
+        nc2 = state["nc2"]
+        stats["probe_two_connections"] += 1
+    ncs = [nc] if nc2 is None else [nc, nc2]
 
     # ---- callers
     def make_msg(i, j):
@@ -164,6 +180,7 @@ def scenario(ch, cfg):
 
     def caller(i):
         extra = 0
+        nc = ncs[i % len(ncs)]          # the connection this caller uses
         calls = list(plans[i])
         j = 0
         while j < len(calls):
@@ -171,7 +188,8 @@ def scenario(ch, cfg):
             w.yield_point("invoke")
             rec = {"caller": i, "idx": j, "msg": (f"fncall({msg.sym},{msg.params})" if hasattr(msg, "sym") else
                                                f"dictget({msg.key})" if hasattr(msg, "key") else repr(msg)[:40]),
-                   "expected": exp, "inv_step": w.steps, "ret_step": None, "after_loss": state["loss_seen"]}
+                   "expected": exp, "inv_step": w.steps, "ret_step": None, "conn": i % len(ncs),
+                   "after_loss": (i % len(ncs)) in state.get("lost_conn", ())}
             records.append(rec)
             np_ = pending_now()
             if np_ >= 2:
@@ -204,6 +222,7 @@ def scenario(ch, cfg):
             w.note(f"ret {i}.{j} {rec['outcome'][0]} {rec['outcome'][1] if rec['outcome'][0] != 'harness' else ''}")
             if rec["outcome"][0] == "exc" and exp != "error":
                 state["loss_seen"] = True
+                state.setdefault("lost_conn", set()).add(i % len(ncs))
                 if extra == 0:
                     # one more call after the loss was observed: must fail promptly, never hang
                     extra = 1
@@ -270,6 +289,11 @@ def scenario(ch, cfg):
         if oc[0] == "harness":
             raise HarnessError(f"exception from harness code inside a call: {oc[1]}")
         exp = rec["expected"]
+        if len(ncs) == 2 and rec["conn"] == 1 and oc[0] == "exc" and exp not in ("error", "must-fail"):
+            only_conn0 = fault in ("cut", "close-race") or (fault == "server-error" and error_call is not None and error_call[0] % 2 == 0)
+            if only_conn0:
+                viol("C14:failure-leaked-to-other-connection", f"call {rec['caller']}.{rec['idx']} {rec['msg']} on the second client's own connection raised "
+                     f"{oc[1]}: {oc[2]} although the fault ({fault}) concerned the first connection only")
         if oc[0] == "exc" and fault in ("none", "push", "connect-first") and exp not in ("error", "must-fail"):
             # nothing was injected that could excuse a failure: the call must return its answer
             viol(f"C14:call-raised-without-fault:{oc[1]}", f"call {rec['caller']}.{rec['idx']} {rec['msg']} raised {oc[1]}: {oc[2]} in a run without any injected fault ({fault})")
